@@ -389,6 +389,13 @@ def transpose1(ctx, mod, tag):
     if not only_result(rep, name, tag, stores, other, 'A'):
         return
     if len(stores) != 2 or any(len(st[0]) != 2 for st in stores) or stores[0][0] != stores[1][0]:
+        arith = [st for st in stores if st[3].func != ld and st[3].has(ld)]
+        if arith:
+            # a transposition moves elements; a cell that receives a sum / difference of elements (the add-subtract exchange) holds the
+            # other element only in exact arithmetic - a + b - b is not a in binary floating point
+            rep.bad('T1', name + tag, 'a cell receives a value computed from elements, A[%s] = %s: the exchange is exact only in real arithmetic' % (
+                arith[0][2], arith[0][3]), loc=arith[0][4], key='T1: swap')
+            return
         rep.unk('T1', name + tag, 'not two statements in one 2-deep nest')
         return
     (l0, _, i1, v1, loc), (_, _, i2, v2, _) = stores
